@@ -1,5 +1,46 @@
-From HT Require Import Base.Prelude World.World.
-(* placeholder: replaced when the world-level theorems land *)
-Theorem C09_failed_tx_unchanged : forall w o e, exec w o = Err e -> step w o = w.
-Proof. intros w o e H. unfold step. now rewrite H. Qed.
-Print Assumptions C09_failed_tx_unchanged.
+(* C09 — Declared native amounts must equal the attached funds exactly.
+   [funds_of (ANative d) funds v = Ok tt] is the model of Asset::assert_sent_native_token_balance;
+   under E-funds (pairwise distinct denoms in the attached funds, Cosmos SDK Coins.Validate) the first
+   coin of a denom is the only one, so "the first coin equals v" is "exactly v attached". *)
+From HT Require Import Base.Prelude Num.Arith Amm.Formulas Amm.Guards World.World Proofs.AuthProofs.
+
+Theorem C09_helper : forall d funds v, funds_of (ANative d) funds v = Ok tt <->
+  (exists c, find (fun c => fst c =? d) funds = Some c /\ snd c = v) \/
+  (find (fun c => fst c =? d) funds = None /\ v = 0).
+Proof. exact funds_of_spec. Qed.
+Theorem C09_helper_token : forall t funds v, funds_of (AToken t) funds v = Ok tt.
+Proof. exact funds_of_token. Qed.
+
+Theorem C09_swap : forall w p ps funds sender offer amount bp ms to r,
+  pair_swap w p ps funds sender offer amount bp ms to = Ok r -> funds_of offer funds amount = Ok tt.
+Proof. exact pair_swap_funds. Qed.
+Theorem C09_provide : forall w p ps c funds l0 n0 l1 n1 tol rcv w',
+  pair_provide w p ps c funds l0 n0 l1 n1 tol rcv = Ok w' ->
+  funds_of l0 funds n0 = Ok tt /\ funds_of l1 funds n1 = Ok tt.
+Proof. exact pair_provide_funds. Qed.
+(* whole transactions *)
+Theorem C09_exec_swap : forall w p c funds offer amount bp ms to w',
+  exec w (OSwap p c funds offer amount bp ms to) = Ok w' ->
+  asset_is_native offer = true /\ funds_of offer funds amount = Ok tt.
+Proof. exact exec_swap_native_only. Qed.
+Theorem C09_exec_provide : forall w p c funds l0 n0 l1 n1 tol rcv w',
+  exec w (OProvide p c funds l0 n0 l1 n1 tol rcv) = Ok w' ->
+  funds_of l0 funds n0 = Ok tt /\ funds_of l1 funds n1 = Ok tt.
+Proof. exact exec_provide_funds. Qed.
+(* otherwise it fails and nothing changes *)
+Theorem C09_failed_unchanged : forall w o e, exec w o = Err e -> step w o = w.
+Proof. exact step_failed_unchanged. Qed.
+
+Example C09_nonvacuous :
+  funds_of (ANative 0) [(1, 5); (0, 7)] 7 = Ok tt /\ funds_of (ANative 0) [(1, 5); (0, 7)] 8 = Err EStd /\
+  funds_of (ANative 0) [(1, 5)] 0 = Ok tt /\ funds_of (ANative 0) [] 1 = Err EStd.
+Proof. repeat split; vm_compute; reflexivity. Qed.
+
+Print Assumptions C09_helper.
+Print Assumptions C09_helper_token.
+Print Assumptions C09_swap.
+Print Assumptions C09_provide.
+Print Assumptions C09_exec_swap.
+Print Assumptions C09_exec_provide.
+Print Assumptions C09_failed_unchanged.
+Print Assumptions C09_nonvacuous.
